@@ -77,6 +77,19 @@ class StubEx:
         self.path = RecordingPath()
 
 
+def rewrap(prop, cases, tag, pred=None):
+    """re-use the cases of another pack under this property's id (the obligations are the same; the property that
+    depends on them names them as its own, so that a change breaking them is reported for it too)"""
+    from pyvc.pack import Case
+
+    out = []
+    for c in cases:
+        if pred is not None and not pred(c):
+            continue
+        out.append(Case(f"{prop}/" + c.unit.split("/", 1)[1] + f"#{tag}", c.case, c.harness, replay=c.replay, contracts=c.contracts, externals=c.externals, loop_specs=c.loop_specs, opts=c.opts, sources=c.sources))
+    return out
+
+
 def replay_script(name, what):
     """native replay by a standalone script under contracts/replays/ (exit 0 = property holds on the real code,
     exit 1 = the script's scenario breaks it; anything else = could not run)"""
